@@ -76,6 +76,7 @@ type consScenario struct {
 	HonourMax      bool
 	Committed      bool // ReadCommitted
 	ShuffleAborted bool
+	AbortedBeyond  int64 // the aborted index reaches this far behind the records served
 	Interceptors   []string // count | mutate | panic
 	Transactional  bool
 }
@@ -230,6 +231,7 @@ func runCons(sc *consScenario, rng *rand.Rand) *consResult {
 	var fi int32
 	sim.OnFetch = func(ctx *sarama.VSimFetchCtx) sarama.VSimFetchAction {
 		act := sarama.VSimFetchAction{Magic: sc.Magic, Codec: sc.Codec, BatchSizes: sc.BatchSizes, AlignTo: sc.AlignTo, MaxBatches: sc.MaxBatches, PartIdx: -1, HonourMax: sc.HonourMax, LogAppend: sc.LogAppend}
+		act.AbortedBeyond = sc.AbortedBeyond
 		if sc.ShuffleAborted {
 			act.ShuffleAborted = 7919
 		}
@@ -962,6 +964,7 @@ func consScenarioFor(prop, tier string, rng *rand.Rand) *consScenario {
 		sc.Transactional = true
 		sc.Committed = rng.Intn(4) != 0
 		sc.ShuffleAborted = rng.Intn(2) == 0
+		sc.AbortedBeyond = []int64{0, 0, 3, 10, 1000}[rng.Intn(5)]
 	}
 	// fault word
 	density := []float64{0, 0.1, 0.3}[rng.Intn(3)]
